@@ -165,6 +165,23 @@ func purityRun(args []string) error {
 		sers = append(sers, &pser{name: "DumpSignedMessage " + string(ver), gated: true, run: func(w io.Writer) []byte { e.DumpSignedMessage(w, signer); return nil }})
 		sers = append(sers, &pser{name: "DumpExchangeHeaders " + string(ver), gated: true, run: func(w io.Writer) []byte { e.DumpExchangeHeaders(w); return nil }})
 	}
+	// b1 index with a URL that has two variants next to URLs with a single response (the variants value is per URL)
+	mixedBundle := func() *bundle.Bundle {
+		b := &bundle.Bundle{Version: bversion.VersionB1}
+		pu, _ := url.Parse("https://a.example/")
+		b.PrimaryURL = pu
+		add := func(us string, kv [][2]string) {
+			u, _ := url.Parse(us)
+			b.Exchanges = append(b.Exchanges, &bundle.Exchange{Request: bundle.Request{URL: u}, Response: bundle.Response{Status: 200, Header: permHeader(r, kv), Body: []byte("body of " + us + kv[0][1])}})
+		}
+		add("https://a.example/", [][2]string{{"Content-Type", "text/html"}})
+		add("https://a.example/v", [][2]string{{"Variant-Key", "en"}, {"Variants", "Accept-Language;en;fr"}})
+		add("https://a.example/v", [][2]string{{"Variant-Key", "fr"}, {"Variants", "Accept-Language;en;fr"}})
+		add("https://a.example/p", [][2]string{{"Content-Type", "text/plain"}})
+		add("https://a.example/q", [][2]string{{"Content-Type", "text/css"}})
+		return b
+	}()
+	sers = append(sers, &pser{name: "Bundle.WriteTo (b1 variants + plain)", gated: true, run: func(w io.Writer) []byte { mixedBundle.WriteTo(w); return nil }})
 	sers = append(sers, &pser{name: "Bundle.WriteTo (built)", gated: true, run: func(w io.Writer) []byte { sharedBundle.WriteTo(w); return nil }})
 	sers = append(sers, &pser{name: "Bundle.WriteTo (parsed)", gated: true, run: func(w io.Writer) []byte { parsedBundle.WriteTo(w); return nil }})
 	ch := (&bsigner{"c", []*keyCert{newKeyCert("p256", nil, 0), newKeyCert("p384", nil, 10)}, nil}).chain()
